@@ -28,7 +28,9 @@ import (
 //
 //	decfirst   every decode entry point of every space is called before anything else
 //	encfirst   every encode entry point of every space is called before anything else
-//	rev        the spaces are visited in reverse order
+//	rev        the spaces are visited in reverse order (rot<k>: rotated by k)
+//	genfirst   the generic primaries-to-matrix generator has been called with every space's primaries
+//	           and other whites before any space converts anything
 //	warm       every other facility of the library (both table widths of every space, colour
 //	           constructors, image transforms, XYZ, adaptation, Lab, the loaders and
 //	           the ICC reader) has been used before the property's own workload starts: state
@@ -41,6 +43,9 @@ func applyVariant(variant string) {
 	}
 	for _, v := range strings.Split(variant, "+") {
 		switch v {
+		case "rot1", "rot2", "rot3":
+			k := int(v[3] - '0')
+			libSpaces = append(libSpaces[k%len(libSpaces):], libSpaces[:k%len(libSpaces)]...)
 		case "rev":
 			for i, j := 0, len(libSpaces)-1; i < j; i, j = i+1, j-1 {
 				libSpaces[i], libSpaces[j] = libSpaces[j], libSpaces[i]
@@ -57,6 +62,22 @@ func applyVariant(variant string) {
 			}
 		case "warm":
 			warmEverything()
+		case "genfirst":
+			// the generic matrix generator is used first, with every space's primaries but other whites
+			// (last of all a white that is not the space's own): a result remembered by the primaries
+			// alone would then be what a space derives its own matrices from
+			for _, s := range libSpaces {
+				other := ciexyy.D50
+				if s.White() == ciexyy.D50 {
+					other = ciexyy.D65
+				}
+				// another white first and another white last, the space's own in between: wrong for a
+				// memo that keeps the first result for these primaries, and for one that keeps the last
+				for _, w := range []ciexyy.Color{other, s.White(), {X: 1.0 / 3, Y: 1.0 / 3, YY: 1}} {
+					_ = ciexyz.TransformToXYZForXYYPrimaries(s.PR(), s.PG(), s.PB(), w)
+					_ = ciexyz.TransformFromXYZForXYYPrimaries(s.PR(), s.PG(), s.PB(), w)
+				}
+			}
 		case "encfirst":
 			for _, s := range libSpaces {
 				if s.To16 != nil {
